@@ -328,9 +328,11 @@ func cmdCheck(args []string) {
 	quick := *tier != "thorough"
 	timeout := 10
 	racTier, racCap := 0, int64(150000)
+	racTimeout := 600 // seconds per batch of bounded stand-ins: a change that makes the code under test loop must not block the check for long
 	if !quick {
 		timeout = 60
 		racTier, racCap = 1, int64(3000000)
+		racTimeout = 3000
 	}
 	// work directories left behind by interrupted runs (older than two hours) are removed
 	if ents, err := os.ReadDir(filepath.Join(outRoot, "work")); err == nil {
@@ -487,7 +489,7 @@ func cmdCheck(args []string) {
 				wg.Add(1)
 				go func(prog *Program, batch []string, bi int) {
 					defer wg.Done()
-					r := prog.runRACBatch(batch, racTier, racCap, seed, nil, filepath.Join(workDir, fmt.Sprintf("rac%d", bi)), 1500)
+					r := prog.runRACBatch(batch, racTier, racCap, seed, nil, filepath.Join(workDir, fmt.Sprintf("rac%d", bi)), racTimeout)
 					mu.Lock()
 					if racRes[prog] == nil {
 						racRes[prog] = map[string]*RACResult{}
